@@ -106,15 +106,27 @@ ObsIsX(o, x, tag) ==
    CV(o.look = x.look, "" \o tag \o ":lookup-differs") \cup
    CV(o.crc = x.crc, "" \o tag \o ":checksum-differs"))
 ObsIs(o, T, probes, tag) == ObsIsX(o, Expect(T, probes), tag)
-\* T: BAddAll(Recycle(S), adds2), xT: Expect(T.b.raw, probes), wT: WireInts(T.b.raw)
-RecycleIsX(r, T, xT, wT, tag) ==
+\* "still knows its UUID types": every UUID type of the registry `reg` (UUID -> number) is in the
+\* registry of the snapshot written as `w`, under the same number
+KeepsTypes(w, reg) ==
+  LET p == ParseInts(w.v) IN
+  w.out = "ok" /\ p.ok /\ CheckRegistry(p.s).ok /\
+  LET r2 == Reg(p.s) IN \A u \in DOMAIN reg : u \in DOMAIN r2 /\ r2[u] = reg[u]
+\* T: BAddAll(Recycle(S), adds2), xT: Expect(T.b.raw, probes), wT: WireInts(T.b.raw),
+\* reg: the registry of the recycled snapshot as the code numbered it
+RecycleIsX(r, T, xT, wT, reg, tag) ==
   CV(r.out = "ok", "" \o tag \o ":recycle-panic") \cup
   (IF r.out # "ok" THEN {} ELSE
    CV(\A j \in 1..Len(r.outs) : r.outs[j] # "panic", "" \o tag \o ":add-after-recycle-panic") \cup
    CV(OkNess(r.outs) = OkNess(T.outs), "" \o tag \o ":add-after-recycle-outcome") \cup
    (IF OkNess(r.outs) # OkNess(T.outs) THEN {} ELSE
-    ObsIsX(r.obs, xT, tag \o ":recycled") \cup
-    CD(r.outs = T.outs, "" \o tag \o ":add-after-recycle-error-class") \cup
+    \* which registry items a recycled builder carries along is not visible to the user: the
+    \* checksum is judged against the snapshot's own wire form, the spec's choice is detail
+    ObsIsX(r.obs, [xT EXCEPT !.crc = IF r.wi.out = "ok" /\ ParseInts(r.wi.v).ok THEN Crc(ParseInts(r.wi.v).s) ELSE xT.crc],
+           tag \o ":recycled") \cup
+    CV(r.wi.out = "ok", "" \o tag \o ":recycled-write-" \o r.wi.out) \cup
+    CV(r.wi.out # "ok" \/ KeepsTypes(r.wi, reg), "" \o tag \o ":recycled-builder-forgot-uuid-types") \cup
+    CD(\A j \in 1..Len(r.outs) : r.outs[j] = "panic" \/ r.outs[j] = T.outs[j], "" \o tag \o ":add-after-recycle-error-class") \cup
     CD(r.wi.out = "ok" /\ r.wi.v = wT, "" \o tag \o ":recycled-wire-form-differs")))
 
 JudgeSnap(e) ==
@@ -139,7 +151,9 @@ JudgeSnap(e) ==
           (IF c.out # "ok" THEN {} ELSE
            CV(ToSet(c.warn) = {}, "copy-" \o c.src \o ":warning") \cup ObsIsX(c.obs, xS, "copy-" \o c.src))
           : c \in ToSet(e.copies)} \cup
-   UNION {RecycleIsX(r, T, xT, wT, "copy-" \o r.src) : r \in ToSet(e.rec)})
+   (IF e.wi.out # "ok" \/ ~ParseInts(e.wi.v).ok THEN {} ELSE
+    LET reg == Reg(ParseInts(e.wi.v).s) IN
+    UNION {RecycleIsX(r, T, xT, wT, reg, "copy-" \o r.src) : r \in ToSet(e.rec)}))
 
 \* ------------------------------------------------------------------ op "parse" (C11)
 \* an accepted raw snapshot: limits, written and read back equal
@@ -164,7 +178,8 @@ AcceptedSnapIs(o, S, adds2, tag) ==
    CV(\A j \in 1..Len(o.rec.outs) : o.rec.outs[j] # "panic", "" \o tag \o ":add-after-recycle-panic") \cup
    (IF OkNess(o.rec.outs) # OkNess(T.outs) THEN {<<"D", "" \o tag \o ":add-after-recycle-outcome">>} ELSE
     ObsIs(o.rec.obs, T.b.raw, probes, tag \o ":recycled") \cup
-    CD(o.rec.outs = T.outs, "" \o tag \o ":add-after-recycle-error-class")))
+    CV(o.rec.wi.out # "ok" \/ KeepsTypes(o.rec.wi, Reg(S)), "" \o tag \o ":recycled-builder-forgot-uuid-types") \cup
+    CD(\A j \in 1..Len(o.rec.outs) : o.rec.outs[j] = "panic" \/ o.rec.outs[j] = T.outs[j], "" \o tag \o ":add-after-recycle-error-class")))
 
 JudgeParseSnap(e) ==
   LET isb == e.kind = "sb"
